@@ -192,6 +192,15 @@ def composite_codec_encode_into_pdu(codec: CompositeCodec, physical_value: Optio
 
         end_cursor_position = max(end_cursor_position, encode_state.cursor_byte_position)
 
+        # the value of the key only applies to this instance of the
+        # composite object. Further instances (e.g., the next item
+        # of a field) must not pick it up.
+        if isinstance(param, LengthKeyParameter):
+            encode_state.length_keys.pop(param.short_name, None)
+        else:
+            encode_state.table_keys.pop(param.short_name, None)
+        encode_state.key_pos.pop(param.short_name, None)
+
     # encoding the keys must not change the location of subsequent
     # objects
     encode_state.cursor_byte_position = end_cursor_position
